@@ -11,7 +11,7 @@ Separate Extraction
   Spec.exec Spec.resolve Spec.key_n Spec.listing Spec.keys_sorted
   Layout.dec_db Layout.dec_with_meta Layout.accounted Layout.page_ids Layout.nodupb Layout.freelist_ids Layout.validate_at Layout.choose_meta
   Cursor.api_call Cursor.list_call Cursor.flatten Cursor.nodes Cursor.depth Cursor.has_empty_leaf Cursor.api_run Cursor.list_run Cursor.wf Cursor.fuel_for
-  Layout.open_model Layout.meta_valid
+  Layout.open_model Layout.meta_valid Layout.rd_meta
   Compact.compact Compact.wf_ents
   Grow.alloc_refused Grow.grow Grow.grow_nosync Grow.mmap_size
   Pager.pstep Pager.pg_open Pager.scan_free Pager.commit_writes Pager.pend_pages Pager.minus.
